@@ -3,7 +3,7 @@
 # then store it as /verif/seeded/<ID>-m<k>/ {patch.diff, demo.sh, meta.json}
 set -u
 export GOFLAGS=-mod=mod GOPROXY=off GOSUMDB=off GOTOOLCHAIN=local
-ID=$1; K=$2; D=/tmp/mut/$ID; WT=$D/wt; O=$D/out
+ID=$1; K=$2; D=${MUTBASE:-/tmp/mut}/$ID; WT=$D/wt; O=$D/out
 cd $WT || exit 2
 git checkout -q -- . && git clean -fdq
 P=$O/m$K.patch.diff; DEMO=$O/m$K.demo.sh
@@ -18,12 +18,12 @@ git checkout -q -- . && git clean -fdq
 rm -f /tmp/mv.$$.log
 echo "RESULT $ID m$K pristine_demo_rc=$PR tests_rc=$TR changed_demo_rc=$CR"
 if [ $PR = 0 ] && [ $TR = 0 ] && [ $CR != 0 ]; then
-  S=/verif/seeded/$ID-m$K; mkdir -p $S
+  S=/verif/seeded/$ID-m${MUTNUM:-$K}; mkdir -p $S
   cp $P $S/patch.diff; cp $DEMO $S/demo.sh
   python3 - <<PY
 import json
 m=json.load(open("$O/m$K.meta.json"))
-m["confirmed"]={"pristine_demo_rc":$PR,"suite_rc_with_change":$TR,"changed_demo_rc":$CR,"ran":"tools/mutverify.sh $ID $K (git apply in scratch worktree; go build ./...; go test -vet=off -count=1 ./...; demo on changed and pristine tree)"}
+m["confirmed"]={"pristine_demo_rc":$PR,"suite_rc_with_change":$TR,"changed_demo_rc":$CR,"ran":"tools/mutverify.sh $ID $K [round ${MUTBASE:-/tmp/mut}] (git apply in scratch worktree; go build ./...; go test -vet=off -count=1 ./...; demo on changed and pristine tree)"}
 json.dump(m,open("$S/meta.json","w"),indent=1)
 PY
   echo "KEPT $S"
